@@ -55,10 +55,15 @@ def part_scan(ctx, rnd):
     if not scns:
         raise vlib.InfraError("scan: no scenario emitted")
     cap = 20000 if ctx.thorough else 1500
-    if len(scns) > cap:
-        scns.sort(key=lambda s: s["id"])
-        rnd.shuffle(scns)
-        scns = scns[:cap]
+    scns.sort(key=lambda s: s["id"])
+    rnd.shuffle(scns)
+    # two thirds of the sample without a failing request, one third with one (initial count, a page, final count)
+    nofail = [s for s in scns if s.get("failreq", -1) < 0][:cap * 2 // 3]
+    withfail = [s for s in scns if s.get("failreq", -1) >= 0][:cap - len(nofail)]
+    scns = nofail + withfail
+    variants = ["s500", "conn", "trunc"]
+    for s in scns:
+        s["fvar"] = variants[(s["id"] + ctx.seed) % 3]
     # random populations beyond the model's bounds (up to 200 collections, heavy ties, page sizes
     # below and above the tie multiplicity, server-side page cap with pageSize 0)
     nrand = 1500 if ctx.thorough else 120
@@ -75,6 +80,10 @@ def part_scan(ctx, rnd):
         if i % 7 == 0:
             s["lim"] = 0
             s["cap"] = rnd.choice([1, 2, 3, 5, 10, 50, 1000])
+        if i % 5 == 1:
+            # a failing list request somewhere (a number beyond the last request means no failure)
+            s["failreq"] = rnd.choice([0, 1, 2, 3, rnd.randint(0, 12)])
+            s["fvar"] = rnd.choice(["s500", "conn", "trunc"])
         scns.append(s)
     by_id = {s["id"]: s for s in scns}
     ov = ctx.harness_overlay(pkg, "harness/C06_keepbalance")
